@@ -2,6 +2,7 @@
 C18 — the two mappings are complete and mutually inverse: theorems about the fold.
 -/
 import DebInspector.Props.C18
+import DebInspector.Proofs.SplitJoin
 
 namespace Props.C18
 open Py Model.Contents
@@ -92,5 +93,468 @@ example : parseContents (fileLines "FILE  LOCATION\nusr/a b   main/net/x,y\nusr/
     .ok ([("usr/a b".toList, ["x".toList, "y".toList, "z".toList])],
          [("x".toList, ["usr/a b".toList]), ("y".toList, ["usr/a b".toList]), ("z".toList, ["usr/a b".toList])]) := by
   decide +kernel
+
+/-! ## the whole property: every table of the grammar -/
+
+/-! ### string facts -/
+
+theorem join1_snoc (sep : Char) (qs : List Str) (n : Str) (h : qs ≠ []) :
+    join [sep] (qs ++ [n]) = join [sep] qs ++ sep :: n := by
+  induction qs with
+  | nil => exact absurd rfl h
+  | cons q rest ih =>
+    cases rest with
+    | nil => simp [join]
+    | cons r rs =>
+      have := ih (by simp)
+      simp only [List.cons_append] at this ⊢
+      rw [join1_cons2, this, join1_cons2]
+      simp
+
+theorem mem_join1' (sep : Char) (ps : List Str) (c : Char) (h : c ∈ join [sep] ps) : c = sep ∨ ∃ p ∈ ps, c ∈ p := by
+  induction ps with
+  | nil => simp [join] at h
+  | cons p ps ih =>
+    cases ps with
+    | nil => simp only [join] at h; exact Or.inr ⟨p, by simp, h⟩
+    | cons q qs =>
+      rw [join1_cons2] at h
+      simp only [List.mem_append, List.mem_cons] at h
+      rcases h with h | h | h
+      · exact Or.inr ⟨p, by simp, h⟩
+      · exact Or.inl h
+      · rcases ih h with h | ⟨r, hr, hc⟩
+        · exact Or.inl h
+        · exact Or.inr ⟨r, List.mem_cons_of_mem _ hr, hc⟩
+
+theorem tokenOk_props (s : Str) (h : tokenOk s = true) :
+    s ≠ [] ∧ ∀ c ∈ s, isSpace c = false ∧ c ≠ ',' ∧ c ≠ '/' := by
+  simp only [tokenOk, Bool.and_eq_true, Bool.not_eq_true', List.isEmpty_eq_false_iff, List.all_eq_true, bne_iff_ne,
+    ne_eq] at h
+  exact ⟨h.1, fun c hc => ⟨(h.2 c hc).1.1, (h.2 c hc).1.2, (h.2 c hc).2⟩⟩
+
+/-- a qualified name `[[area/]section/]package` -/
+structure QFacts (p : List Str × Str) : Prop where
+  name : tokenOk p.2 = true
+  quals : ∀ q ∈ p.1, tokenOk q = true
+
+theorem qualified_chars (p : List Str × Str) (hq : QFacts p) :
+    qualified p ≠ [] ∧ ∀ c ∈ qualified p, isSpace c = false ∧ c ≠ ',' := by
+  unfold qualified
+  have hn := tokenOk_props p.2 hq.name
+  constructor
+  · cases hp : p.1 with
+    | nil => simpa [join] using hn.1
+    | cons q qs =>
+      have hq0 := (tokenOk_props q (hq.quals q (by rw [hp]; simp))).1
+      intro e
+      have : join ['/'] (q :: (qs ++ [p.2])) = [] := by simpa using e
+      cases hqs : qs ++ [p.2] with
+      | nil => simp at hqs
+      | cons r rs => rw [hqs, join1_cons2] at this; cases q <;> simp_all
+  · intro c hc
+    rcases mem_join1' '/' _ c hc with h | ⟨t, ht, hct⟩
+    · subst h; exact ⟨by decide, by decide⟩
+    · simp only [List.mem_append, List.mem_singleton] at ht
+      rcases ht with ht | rfl
+      · have := (tokenOk_props t (hq.quals t ht)).2 c hct
+        exact ⟨this.1, this.2.1⟩
+      · have := hn.2 c hct
+        exact ⟨this.1, this.2.1⟩
+
+theorem bareName_qualified (p : List Str × Str) (hq : QFacts p) : bareName (qualified p) = p.2 := by
+  unfold bareName qualified
+  have hn := tokenOk_props p.2 hq.name
+  have hns : '/' ∉ p.2 := fun hm => (hn.2 '/' hm).2.2 rfl
+  cases hp : p.1 with
+  | nil => simp [join, rpartitionChar_not_mem '/' p.2 hns]
+  | cons q qs =>
+    rw [join1_snoc '/' (q :: qs) p.2 (by simp), rpartitionChar_split '/' _ _ hns]
+
+
+/-! ### one row -/
+
+structure RowFacts (r : Row) : Prop where
+  pathNe : r.path ≠ []
+  pathHead : headP isSpace r.path = false
+  pathLast : lastP (fun c => !isSpace c) r.path = true
+  pathNoNl : '\n' ∉ r.path
+  pkgsNe : r.pkgs ≠ []
+  pkgs : ∀ p ∈ r.pkgs, QFacts p
+  padNe : r.pad ≠ []
+  pad : ∀ c ∈ r.pad, c = ' '
+  notHeader : ¬ (r.path = "FILE".toList ∧ join [','] (r.pkgs.map qualified) = "LOCATION".toList)
+
+theorem rowFacts (r : Row) (h : rowOk r = true) : RowFacts r := by
+  simp only [rowOk, Bool.and_eq_true, Bool.not_eq_true', List.isEmpty_eq_false_iff, List.all_eq_true, beq_iff_eq,
+    decide_eq_true_eq] at h
+  obtain ⟨⟨⟨⟨⟨⟨⟨⟨⟨h1, h2⟩, h3⟩, h4⟩, _⟩, h6⟩, h7⟩, h8⟩, h9⟩, h10⟩ := h
+  refine ⟨h1, ?_, h3, by simpa using h4, h6, ?_, h8, h9, ?_⟩
+  · cases hp : r.path with
+    | nil => exact absurd hp h1
+    | cons c cs => rw [hp] at h2; simpa [headP] using h2
+  · intro p hp
+    have := h7 p hp
+    exact ⟨this.1.1, this.2⟩
+  · intro hc
+    simp [hc.1, hc.2] at h10
+
+def pkText (r : Row) : Str := join [','] (r.pkgs.map qualified)
+
+theorem pkText_props (r : Row) (hf : RowFacts r) :
+    pkText r ≠ [] ∧ (∀ c ∈ pkText r, isSpace c = false) := by
+  unfold pkText
+  constructor
+  · cases hp : r.pkgs with
+    | nil => exact absurd hp hf.pkgsNe
+    | cons p ps =>
+      have := (qualified_chars p (hf.pkgs p (by rw [hp]; simp))).1
+      simp only [List.map_cons]
+      cases ps with
+      | nil => simpa [join] using this
+      | cons q qs => rw [List.map_cons, join1_cons2]; cases hq : qualified p <;> simp_all
+  · intro c hc
+    rcases mem_join1' ',' _ c hc with h | ⟨t, ht, hct⟩
+    · subst h; decide
+    · simp only [List.mem_map] at ht
+      obtain ⟨p, hp, rfl⟩ := ht
+      exact ((qualified_chars p (hf.pkgs p hp)).2 c hct).1
+
+theorem lastP_all' (p : Char → Bool) (s : Str) (hne : s ≠ []) (h : ∀ c ∈ s, p c = true) : lastP p s = true := by
+  induction s with
+  | nil => exact absurd rfl hne
+  | cons c cs ih =>
+    cases cs with
+    | nil => simpa [lastP] using h c (by simp)
+    | cons d ds => simpa [lastP] using ih (by simp) (fun x hx => h x (by simp [hx]))
+
+theorem splitLine_row (r : Row) (hf : RowFacts r) : splitLine (renderRow r) = (r.path, pkText r) := by
+  obtain ⟨hpne, hpns⟩ := pkText_props r hf
+  obtain ⟨pad', hpad'⟩ : ∃ pad', r.pad = pad' ++ [' '] := by
+    rcases List.eq_nil_or_concat r.pad with h | ⟨i, l, h⟩
+    · exact absurd h hf.padNe
+    · have hl : l = ' ' := hf.pad l (by rw [h]; simp)
+      exact ⟨i, by rw [h, hl]; simp⟩
+  have hsp : ∀ c ∈ pad', isSpace c = true := by
+    intro c hc
+    have : c = ' ' := hf.pad c (by rw [hpad']; simp [hc])
+    subst this; decide
+  have hrender : renderRow r = (r.path ++ pad') ++ ' ' :: pkText r := by
+    simp [renderRow, pkText, hpad', List.append_assoc]
+  -- the rendered row is already trimmed
+  have hhead : headP isSpace ((r.path ++ pad') ++ ' ' :: pkText r) = false := by
+    cases hp : r.path with
+    | nil => exact absurd hp hf.pathNe
+    | cons c cs => have := hf.pathHead; rw [hp] at this; simpa [headP] using this
+  have hlast : lastP (fun c => !isSpace c) ((r.path ++ pad') ++ ' ' :: pkText r) = true := by
+    cases hpk : pkText r with
+    | nil => exact absurd hpk hpne
+    | cons c cs =>
+      have e : (r.path ++ pad') ++ ' ' :: c :: cs = ((r.path ++ pad') ++ [' ']) ++ c :: cs := by simp
+      rw [e, lastP_append_cons]
+      rw [← hpk]
+      exact lastP_all' _ _ hpne (fun x hx => by simp [hpns x hx])
+  have hstrip : strip (renderRow r) = (r.path ++ pad') ++ ' ' :: pkText r := by
+    rw [hrender]
+    have := strip_core [] ((r.path ++ pad') ++ ' ' :: pkText r) [] (by simp) (by simp) hhead hlast
+    simpa using this
+  have hnosp : ' ' ∉ pkText r := by
+    intro hm; have := hpns ' ' hm; revert this; decide
+  unfold splitLine
+  simp only [hstrip, rpartitionChar_split ' ' _ _ hnosp]
+  have h1 : strip (r.path ++ pad') = r.path := by
+    have := strip_core [] r.path pad' (by simp) hsp hf.pathHead hf.pathLast
+    simpa using this
+  have h2 : strip (pkText r) = pkText r := by
+    have hh : headP isSpace (pkText r) = false := by
+      cases hpk : pkText r with
+      | nil => exact absurd hpk hpne
+      | cons c cs => have := hpns c (by rw [hpk]; simp); simp [headP, this]
+    have := strip_core [] (pkText r) [] (by simp) (by simp) hh (lastP_all' _ _ hpne (fun x hx => by simp [hpns x hx]))
+    simpa using this
+  rw [h1, h2]
+
+theorem names_row (r : Row) (hf : RowFacts r) :
+    (splitChar ',' (pkText r)).map bareName = r.pkgs.map (·.2) := by
+  unfold pkText
+  have hne : r.pkgs.map qualified ≠ [] := by
+    cases hp : r.pkgs with
+    | nil => exact absurd hp hf.pkgsNe
+    | cons p ps => simp
+  rw [splitChar_join ',' _ hne (by
+    intro t ht hm
+    simp only [List.mem_map] at ht
+    obtain ⟨p, hp, rfl⟩ := ht
+    exact ((qualified_chars p (hf.pkgs p hp)).2 ',' hm).2 rfl), List.map_map]
+  apply List.map_congr_left
+  intro p hp
+  exact bareName_qualified p (hf.pkgs p hp)
+
+theorem row_not_header (r : Row) (hf : RowFacts r) : isHeaderRow (splitLine (renderRow r)) = false := by
+  rw [splitLine_row r hf]
+  cases h : isHeaderRow (r.path, pkText r) with
+  | false => rfl
+  | true =>
+    simp only [isHeaderRow, Bool.and_eq_true, decide_eq_true_eq] at h
+    exact absurd ⟨h.1, h.2⟩ hf.notHeader
+
+
+/-! ### the column-header row -/
+
+theorem startsWith_decomp (s p : Str) (h : startsWith s p = true) : s = p ++ s.drop p.length := by
+  induction p generalizing s with
+  | nil => simp
+  | cons c cs ih =>
+    cases s with
+    | nil => simp [startsWith] at h
+    | cons d ds =>
+      simp only [startsWith, Bool.and_eq_true, beq_iff_eq] at h
+      obtain ⟨rfl, h2⟩ := h
+      simp only [List.length_cons, List.drop_succ_cons, List.cons_append, List.cons.injEq, true_and]
+      exact ih ds h2
+
+theorem endsWith_decomp (s q : Str) (h : endsWith s q = true) : s = s.take (s.length - q.length) ++ q := by
+  unfold endsWith at h
+  have := startsWith_decomp s.reverse q.reverse h
+  have h2 := congrArg List.reverse this
+  simp only [List.reverse_reverse, List.reverse_append, List.length_reverse] at h2
+  rw [List.drop_reverse] at h2
+  simp only [List.reverse_reverse, List.length_reverse] at h2
+  exact h2
+
+theorem headerText_decomp (l : Str) (h : isHeaderText l = true) :
+    ∃ mid, strip l = "FILE".toList ++ mid ++ [' '] ++ "LOCATION".toList ∧ ∀ c ∈ mid, c = ' ' := by
+  simp only [isHeaderText, Bool.and_eq_true, decide_eq_true_eq, List.all_eq_true, beq_iff_eq] at h
+  obtain ⟨⟨⟨h1, h2⟩, h3⟩, h4⟩ := h
+  have e1 := startsWith_decomp _ _ h1
+  have e2 := endsWith_decomp _ _ h2
+  have hl1 : "FILE".toList.length = 4 := rfl
+  have hl2 : "LOCATION".toList.length = 8 := rfl
+  rw [hl1] at e1
+  rw [hl2] at e2
+  -- the middle part
+  have hmid : List.take ((strip l).length - 8) (strip l) =
+      "FILE".toList ++ List.take ((strip l).length - 12) (List.drop 4 (strip l)) := by
+    have h0 : List.take ((strip l).length - 8) (strip l) =
+        List.take ((strip l).length - 8) ("FILE".toList ++ List.drop 4 (strip l)) := congrArg _ e1
+    rw [h0, List.take_append]
+    have : (strip l).length - 8 - "FILE".toList.length = (strip l).length - 12 := by rw [hl1]; omega
+    rw [this]
+    have h5 : List.take ((strip l).length - 8) "FILE".toList = "FILE".toList := by
+      apply List.take_of_length_le; rw [hl1]; omega
+    rw [h5]
+  have hne : List.take ((strip l).length - 12) (List.drop 4 (strip l)) ≠ [] := by
+    intro e
+    have := congrArg List.length e
+    simp only [List.length_take, List.length_drop, List.length_nil] at this
+    omega
+  obtain ⟨mid, last, hml⟩ : ∃ mid last, List.take ((strip l).length - 12) (List.drop 4 (strip l)) = mid ++ [last] := by
+    rcases List.eq_nil_or_concat (List.take ((strip l).length - 12) (List.drop 4 (strip l))) with h | ⟨i, x, h⟩
+    · exact absurd h hne
+    · exact ⟨i, x, by simpa using h⟩
+  have hall : ∀ c ∈ mid ++ [last], c = ' ' := by
+    intro c hc; rw [← hml] at hc; exact h4 c hc
+  have hlast : last = ' ' := hall last (by simp)
+  refine ⟨mid, ?_, fun c hc => hall c (by simp [hc])⟩
+  rw [e2, hmid, hml, hlast]
+  simp [List.append_assoc]
+
+theorem header_isHeaderRow (l : Str) (h : isHeaderText l = true) : isHeaderRow (splitLine l) = true := by
+  obtain ⟨mid, hs, hmid⟩ := headerText_decomp l h
+  have hnosp : ' ' ∉ "LOCATION".toList := by decide
+  have e : strip l = ("FILE".toList ++ mid) ++ ' ' :: "LOCATION".toList := by rw [hs]; simp [List.append_assoc]
+  unfold splitLine
+  simp only [e, rpartitionChar_split ' ' _ _ hnosp]
+  have h1 : strip ("FILE".toList ++ mid) = "FILE".toList := by
+    have := strip_core [] "FILE".toList mid (by simp) (by intro c hc; rw [hmid c hc]; decide) (by decide) (by decide)
+    simpa using this
+  have h2 : strip "LOCATION".toList = "LOCATION".toList := by decide
+  rw [h1, h2]
+  decide
+
+
+/-! ### the file lines and the fold -/
+
+theorem fileLines_render (lines : List Str) (h : ∀ l ∈ lines, '\n' ∉ l) :
+    fileLines (if lines.isEmpty then [] else join ['\n'] lines ++ ['\n']) = lines := by
+  cases lines with
+  | nil => simp [fileLines, splitChar]
+  | cons l ls =>
+    simp only [List.isEmpty_cons, Bool.false_eq_true, if_false]
+    have e : join ['\n'] (l :: ls) ++ ['\n'] = join ['\n'] ((l :: ls) ++ [[]]) := by
+      rw [join1_snoc '\n' (l :: ls) [] (by simp)]
+    have hsplit := splitChar_join '\n' ((l :: ls) ++ [[]]) (by simp) (by
+      intro p hp
+      simp only [List.mem_append, List.mem_singleton] at hp
+      rcases hp with hp | rfl
+      · exact h p hp
+      · simp)
+    unfold fileLines
+    rw [e, hsplit]
+    have hl : ((l :: ls) ++ [[]]).getLast? = some [] := List.getLast?_concat
+    have hd : ((l :: ls) ++ [[]]).dropLast = l :: ls := List.dropLast_concat
+    simp only [hl, hd]
+
+theorem addRow_fields (s : St) (path : Str) (names : List Str) :
+    (addRow s path names).byPath = names.foldl (fun d n => appendTo d path n) s.byPath ∧
+    (addRow s path names).byPkg = names.foldl (fun d n => appendTo d n path) s.byPkg ∧
+    (addRow s path names).inTable = s.inTable := by
+  induction names generalizing s with
+  | nil => simp [addRow]
+  | cons n ns ih =>
+    have := ih { s with byPath := appendTo s.byPath path n, byPkg := appendTo s.byPkg n path }
+    simpa [addRow] using this
+
+theorem run_skip (hasHeader : Bool) (s : St) (ls : List Str) (hs : s.inTable = false)
+    (h : ∀ l ∈ ls, isHeaderRow (splitLine l) = false) : run hasHeader s ls = .ok s := by
+  induction ls with
+  | nil => rfl
+  | cons l ls ih =>
+    simp only [run, step, h l (by simp), Bool.false_eq_true, if_false, hs, Bool.not_false, if_true]
+    exact ih (fun x hx => h x (by simp [hx]))
+
+def foldRows (s : St) (rows : List Row) : St :=
+  rows.foldl (fun s r => addRow s r.path (r.pkgs.map (·.2))) s
+
+theorem run_rows (hasHeader : Bool) (s : St) (rows : List Row) (hin : s.inTable = true)
+    (hf : ∀ r ∈ rows, RowFacts r) : run hasHeader s (rows.map renderRow) = .ok (foldRows s rows) := by
+  induction rows generalizing s with
+  | nil => rfl
+  | cons r rs ih =>
+    have hr := hf r (by simp)
+    have hnh := row_not_header r hr
+    have hsl := splitLine_row r hr
+    simp only [List.map_cons, run, step, hnh, Bool.false_eq_true, if_false, hin, Bool.not_true]
+    rw [hsl]
+    simp only
+    have hnames : (splitChar ',' (pkText r)).map bareName = r.pkgs.map (·.2) := names_row r hr
+    rw [hnames]
+    have hin' : (addRow s r.path (r.pkgs.map (·.2))).inTable = true := by rw [(addRow_fields _ _ _).2.2]; exact hin
+    rw [ih _ hin' (fun x hx => hf x (by simp [hx]))]
+    rfl
+
+theorem foldRows_fields (rows : List Row) (s : St) :
+    (foldRows s rows).byPath = rows.foldl (fun d r => r.pkgs.foldl (fun d p => appendTo d r.path p.2) d) s.byPath ∧
+    (foldRows s rows).byPkg = rows.foldl (fun d r => r.pkgs.foldl (fun d p => appendTo d p.2 r.path) d) s.byPkg ∧
+    (foldRows s rows).inTable = s.inTable := by
+  induction rows generalizing s with
+  | nil => simp [foldRows]
+  | cons r rs ih =>
+    obtain ⟨h1, h2, h3⟩ := addRow_fields s r.path (r.pkgs.map (·.2))
+    obtain ⟨i1, i2, i3⟩ := ih (addRow s r.path (r.pkgs.map (·.2)))
+    simp only [foldRows, List.foldl_cons] at i1 i2 i3 ⊢
+    refine ⟨?_, ?_, by rw [i3, h3]⟩
+    · rw [i1, h1, List.foldl_map]
+    · rw [i2, h2, List.foldl_map]
+
+
+theorem run_append (hh : Bool) (s : St) (a b : List Str) :
+    run hh s (a ++ b) = match run hh s a with | .ok s' => run hh s' b | .error e => .error e := by
+  induction a generalizing s with
+  | nil => rfl
+  | cons l ls ih =>
+    simp only [List.cons_append, run]
+    cases step hh s l with
+    | error e => rfl
+    | ok s' => exact ih s'
+
+theorem renderRow_noNl (r : Row) (hf : RowFacts r) : '\n' ∉ renderRow r := by
+  intro hm
+  simp only [renderRow, List.mem_append] at hm
+  rcases hm with (hm | hm) | hm
+  · exact hf.pathNoNl hm
+  · exact absurd (hf.pad _ hm) (by decide)
+  · have := (pkText_props r hf).2 '\n' hm
+    revert this; decide
+
+/-- **C18** — for every table of the grammar (any number of rows, paths with embedded spaces, one to
+many qualified package names per row, any column padding, with or without header narrative) the model
+of `parse_contents` returns exactly the expected mappings — each row's path maps to the bare package
+names of that row in order, each package to the paths of the rows naming it in file order — free text
+before a declared header is ignored, and a declared header that is missing or an undeclared header
+that is present raises. -/
+theorem sound (i : Input) : holdsOn i (model i) = true := by
+  unfold holdsOn
+  cases hw : wf i with
+  | false => rfl
+  | true =>
+    simp only [wf, Bool.and_eq_true, List.all_eq_true, Bool.not_eq_true', Bool.or_eq_true, beq_iff_eq] at hw
+    obtain ⟨⟨⟨⟨hrows, hnarr⟩, hhdr⟩, hfree⟩, htext⟩ := hw
+    have hrf : ∀ r ∈ i.rows, RowFacts r := fun r hr => rowFacts r (hrows r hr)
+    have hnarrNl : ∀ l ∈ i.narrative, '\n' ∉ l := by
+      intro l hl; have := (hnarr l hl).1.1.1; simpa using this
+    have hnarrNH : ∀ l ∈ i.narrative, isHeaderRow (splitLine l) = false := fun l hl => (hnarr l hl).2
+    have hrowNH : ∀ l ∈ i.rows.map renderRow, isHeaderRow (splitLine l) = false := by
+      intro l hl
+      simp only [List.mem_map] at hl
+      obtain ⟨r, hr, rfl⟩ := hl
+      exact row_not_header r (hrf r hr)
+    have hrowNl : ∀ l ∈ i.rows.map renderRow, '\n' ∉ l := by
+      intro l hl
+      simp only [List.mem_map] at hl
+      obtain ⟨r, hr, rfl⟩ := hl
+      exact renderRow_noNl r (hrf r hr)
+    have hmodel : model i = ⟨parseContents (fileLines i.text) i.hasHeader, parseContents (fileLines i.text) i.hasHeader⟩ := rfl
+    suffices hmain : parseContents (fileLines i.text) i.hasHeader = expected i by
+      rw [hmodel]; simp [hmain]
+    rw [htext]
+    unfold render
+    simp only
+    cases hh : i.headerRow with
+    | none =>
+      simp only [List.append_nil]
+      rw [fileLines_render _ (by
+        intro l hl
+        simp only [List.mem_append] at hl
+        rcases hl with hl | hl
+        · exact hnarrNl l hl
+        · exact hrowNl l hl)]
+      cases hhas : i.hasHeader with
+      | false =>
+        have hn : i.narrative = [] := by
+          rcases hfree with h | h
+          · rw [hhas] at h; cases h
+          · simpa using h
+        simp only [hn, List.nil_append, parseContents, Bool.not_false, expected, hh, hhas]
+        rw [run_rows false ⟨true, [], []⟩ i.rows rfl hrf]
+        obtain ⟨h1, h2, h3⟩ := foldRows_fields i.rows ⟨true, [], []⟩
+        simp only [h3, Bool.not_true, Bool.false_eq_true, if_false, h1, h2, expectedByPath, expectedByPkg]
+      | true =>
+        simp only [parseContents, Bool.not_true, expected, hh, hhas]
+        rw [run_skip true ⟨false, [], []⟩ _ rfl (by
+          intro l hl
+          simp only [List.mem_append] at hl
+          rcases hl with hl | hl
+          · exact hnarrNH l hl
+          · exact hrowNH l hl)]
+        simp
+    | some h =>
+      rw [hh] at hhdr
+      simp only [Bool.and_eq_true, Bool.not_eq_true'] at hhdr
+      have hhNl : '\n' ∉ h := by have := hhdr.1.2; simpa using this
+      have hhRow : isHeaderRow (splitLine h) = true := header_isHeaderRow h hhdr.1.1
+      rw [fileLines_render _ (by
+        intro l hl
+        simp only [List.mem_append, List.mem_singleton] at hl
+        rcases hl with (hl | hl) | hl
+        · exact hnarrNl l hl
+        · subst hl; exact hhNl
+        · exact hrowNl l hl)]
+      cases hhas : i.hasHeader with
+      | false =>
+        have hn : i.narrative = [] := by
+          rcases hfree with h' | h'
+          · rw [hhas] at h'; cases h'
+          · simpa using h'
+        simp only [hn, List.nil_append, List.singleton_append, parseContents, run, step, hhRow, if_true, Bool.not_false,
+          expected, hh, hhas]
+      | true =>
+        simp only [parseContents, Bool.not_true, expected, hh, hhas, List.append_assoc]
+        rw [run_append, run_skip true ⟨false, [], []⟩ _ rfl hnarrNH]
+        simp only [List.singleton_append, run, step, hhRow, if_true, Bool.not_true, Bool.false_eq_true, if_false]
+        rw [run_rows true _ i.rows rfl hrf]
+        obtain ⟨h1, h2, h3⟩ := foldRows_fields i.rows ⟨true, [], []⟩
+        simp only [h3, Bool.not_true, Bool.false_eq_true, if_false, h1, h2, expectedByPath, expectedByPkg]
+
 
 end Props.C18
